@@ -827,6 +827,21 @@ func (g *Gen) prelude() []*TopItem {
 			items = append(items, &TopItem{Func: f, Label: "prelude:" + f.Name})
 		}
 	}
+	if g.P.ReturnedFns {
+		// functions that return functions: one whose returned function yields a value, one whose returned
+		// function yields unit (a pipe into `mkShow "t"` has to become frt.PipeUnit although the stage is
+		// a fully applied call)
+		ii := TFunc([]*Type{TInt}, TInt)
+		iu := TFunc([]*Type{TInt}, TUnit)
+		mkAdd := &FuncDecl{Name: "mkAdd", Params: []Param{{"a", TInt, true}}, Ret: ii,
+			Body: Blk(&Expr{K: "lambda", T: ii, Params: []Param{{Name: "b", T: TInt, Annot: true}}, Body: Blk(Bin("+", TInt, Var("a", TInt), Var("b", TInt)))})}
+		mkShow := &FuncDecl{Name: "mkShow", Params: []Param{{"tag", TString, true}}, Ret: iu,
+			Body: Blk(&Expr{K: "lambda", T: iu, Params: []Param{{Name: "n", T: TInt, Annot: true}},
+				Body: Blk(Call("frt.Println", TUnit, Bin("+", TString, Var("tag", TString), Call("frt.Sprintf1", TString, Str("=%d"), Var("n", TInt)))))})}
+		for _, f := range []*FuncDecl{mkAdd, mkShow} {
+			items = append(items, &TopItem{Func: f, Label: "prelude:" + f.Name})
+		}
+	}
 	return items
 }
 
